@@ -1,14 +1,116 @@
-(* C13 - statements only; see Proofs/.  (first theorems; the full set is being added) *)
-From Coq Require Import List Bool.
-From GR Require Import Base.Bytes Base.Res Codec.Schema Codec.Tracker.
+(* C13 - schema defaults in the JSON tree decoder (statements only; proofs in Proofs/DefaultsProofs.v, built on the exact
+   characterisation of Proofs/MissingProofs.v).
+
+     lit_value e w ig pF f t lit      the decoding of the literal: parse_json lit, then decJ ... f true t jd tracker0
+     own_slot_spec ... f filled es fd what the slot of OWN field fd holds after decoding the object with entries es:
+                                        present (non-null) in the document -> the decoded document value (the document wins)
+                                        absent, Required                   -> the Go zero value (and the field is reported)
+                                        absent, Optional                   -> nil
+                                        absent, Default lit                -> lit_value ... lit if filled, nil otherwise
+   excl = ps_empty throughout.  The decoder fills the defaults (filled = true) unless the record is the one that raises the
+   missing-required-fields error at the start of the input (candidate D35); defaults declared in an INCLUDED record are never
+   filled by the including record (finding D28). *)
+From Coq.Strings Require Import Byte String.
+From Coq Require Import List Bool Arith ZArith NArith Permutation.
+From GR Require Import Base.Bytes Base.Res Codec.Schema Codec.Doc Codec.Json Codec.Tracker Codec.Decode
+  Proofs.MissingProofs Proofs.DefaultsProofs.
 Import ListNotations.
 
-(* the list of missing fields raised to the caller is sorted (sort.Strings) and holds exactly the recorded paths *)
-Theorem sort_bytes_length_13 : forall l, length (sort_bytes l) = length l.
-Proof.
-  assert (Hi : forall k l, length (insert_bytes k l) = S (length l)).
-  { intros k l. induction l as [|x r IH]; cbn [insert_bytes length]; [reflexivity|].
-    destruct (bytes_ltb x k); cbn [length]; [rewrite IH|]; reflexivity. }
-  induction l as [|k r IH]; cbn [sort_bytes length]; [reflexivity|]. rewrite Hi, IH. reflexivity.
-Qed.
-Print Assumptions sort_bytes_length_13.
+(* ---- decode_fills_own_defaults: every own slot, exactly ---- *)
+Theorem decode_fills_own_defaults : forall e wildcard ignore parseF, wf_schema e ->
+  forall n incs fs, lookup e n = Some (DRecord incs fs) ->
+  forall f top d tr v tr',
+    well_shaped e parseF (S f) (TRef n) d ->
+    t_scope tr <> [SKey []] -> (t_scope tr = [] -> keys_nonempty (entries_of d)) ->
+    decJ e wildcard ps_empty ignore parseF (S f) top (TRef n) d tr = Ok (v, tr') ->
+    top = false \/ t_missing tr' = [] ->
+    exists ivs fvs, v = VRec ivs fvs /\ length fvs = length fs /\
+      forall j fd, nth_error fs j = Some fd ->
+        nth_error fvs j = Some (own_slot_spec e wildcard ignore parseF f true (entries_of d) fd).
+Proof. exact DefaultsProofs.decode_fills_own_defaults. Qed.
+
+(* the value in the slot of a present field IS what the decoder returns on that sub-document *)
+Theorem present_value_is_decoded : forall e wildcard ignore parseF, wf_schema e ->
+  forall f t x trx,
+    well_shaped e parseF f t x -> t_scope trx <> [] -> t_scope trx <> [SKey []] ->
+    exists trx', decJ e wildcard ps_empty ignore parseF f false t x trx
+                 = Ok (decode_spec e wildcard ignore parseF f false t x, trx').
+Proof. exact DefaultsProofs.present_value_is_decoded. Qed.
+
+(* ---- defaults are never reported as missing (corollary of C06) ---- *)
+Theorem defaults_not_missing : forall e wildcard ignore parseF, wf_schema e ->
+  forall fuel top t d tr v tr',
+    well_shaped e parseF fuel t d -> t_scope tr <> [SKey []] -> (t_scope tr = [] -> keys_nonempty (entries_of d)) ->
+    decJ e wildcard ps_empty ignore parseF fuel top t d tr = Ok (v, tr') ->
+    forall p, In p (t_missing tr') ->
+      In p (t_missing tr) \/
+      (missing_at e t d (t_scope tr) p /\
+       exists rest n incs fs fd,
+         lookup e n = Some (DRecord incs fs) /\ In fd (fields_of e n) /\ f_opt fd = Required /\
+         p = scope_string ((t_scope tr ++ rest) ++ [SKey (f_name fd)])).
+Proof. exact DefaultsProofs.defaults_not_missing. Qed.
+
+(* ---- D28: inherited defaults ---- *)
+Definition included_defaults_filled_full : Prop := DefaultsProofs.included_defaults_filled_full.
+
+Theorem included_defaults_filled_partial :
+  forall e wildcard ignore parseF, wf_schema e ->
+  forall n incs fs f top d tr v tr' j fd lit,
+    lookup e n = Some (DRecord incs fs) ->
+    well_shaped e parseF (S f) (TRef n) d ->
+    t_scope tr <> [SKey []] -> (t_scope tr = [] -> keys_nonempty (entries_of d)) ->
+    decJ e wildcard ps_empty ignore parseF (S f) top (TRef n) d tr = Ok (v, tr') ->
+    top = false \/ t_missing tr' = [] ->
+    nth_error fs j = Some fd -> f_opt fd = Default lit -> present (entries_of d) (f_name fd) = None ->
+    exists ivs fvs, v = VRec ivs fvs /\ nth_error fvs j = Some (lit_value e wildcard ignore parseF f (f_ty fd) lit).
+Proof. exact DefaultsProofs.included_defaults_filled_partial. Qed.
+
+Theorem included_defaults_not_filled_refuted : ~ included_defaults_filled_full.
+Proof. exact DefaultsProofs.included_defaults_not_filled_refuted. Qed.
+
+(* {"id":1} as Outer (includes Base {id; c = 7}, own {name?; k = 5}): k is filled, the inherited c is not; as Base it is *)
+Theorem included_defaults_witness :
+  decJ c13_env c13_star ps_empty 0 c13_pf 4 true (TRef 1) c13_doc tracker0
+  = Ok (VRec [VRec [] [Some (VInt 1); None]] [None; Some (VInt 5)], tracker0)
+  /\ decJ c13_env c13_star ps_empty 0 c13_pf 4 true (TRef 0) c13_doc tracker0
+     = Ok (VRec [] [Some (VInt 1); Some (VInt 7)], tracker0).
+Proof. exact DefaultsProofs.included_defaults_witness. Qed.
+
+(* ---- D35: the record that raises at the start of the input keeps nil in its absent defaulted fields ---- *)
+Theorem top_level_missing_skips_defaults : forall e wildcard ignore parseF, wf_schema e ->
+  forall n incs fs, lookup e n = Some (DRecord incs fs) ->
+  forall f d tr v tr',
+    well_shaped e parseF (S f) (TRef n) d ->
+    t_scope tr <> [SKey []] -> (t_scope tr = [] -> keys_nonempty (entries_of d)) ->
+    decJ e wildcard ps_empty ignore parseF (S f) true (TRef n) d tr = Ok (v, tr') ->
+    t_missing tr' <> [] ->
+    exists ivs fvs, v = VRec ivs fvs /\ length fvs = length fs /\
+      forall j fd, nth_error fs j = Some fd ->
+        nth_error fvs j = Some (own_slot_spec e wildcard ignore parseF f false (entries_of d) fd).
+Proof. exact DefaultsProofs.top_level_missing_skips_defaults. Qed.
+
+Theorem top_level_missing_skips_defaults_witness :
+  decode_json c13_env c13_star ps_empty 0 c13_pf 4 (TRef 0) (c13_b "{}"%string)
+  = DMissing [c13_b "id"%string] (VRec [] [Some (VInt 0); None])
+  /\ decode_json c13_env c13_star ps_empty 0 c13_pf 4 (TArray (TRef 0)) (c13_b "[{}]"%string)
+     = DOk (VArr [VRec [] [Some (VInt 0); Some (VInt 7)]]).
+Proof. exact DefaultsProofs.top_level_missing_skips_defaults_witness. Qed.
+
+(* ---- non-vacuity: the hypotheses hold of a concrete schema and document, and the conclusion is the computed value ---- *)
+Example c13_nonvacuous :
+  wf_schema c13_env /\ well_shaped c13_env c13_pf 4 (TRef 1) c13_doc /\
+  own_slot_spec c13_env c13_star 0 c13_pf 3 true (entries_of c13_doc) (c13_fld "k"%string (TPrim PInt) (Default (c13_b "5"%string)))
+  = Some (VInt 5) /\
+  own_slot_spec c13_env c13_star 0 c13_pf 3 true [(c13_b "k"%string, JNum (c13_b "9"%string))] (c13_fld "k"%string (TPrim PInt) (Default (c13_b "5"%string)))
+  = Some (VInt 9).
+Proof. exact DefaultsProofs.c13_nonvacuous. Qed.
+
+Print Assumptions decode_fills_own_defaults.
+Print Assumptions present_value_is_decoded.
+Print Assumptions defaults_not_missing.
+Print Assumptions included_defaults_filled_partial.
+Print Assumptions included_defaults_not_filled_refuted.
+Print Assumptions included_defaults_witness.
+Print Assumptions top_level_missing_skips_defaults.
+Print Assumptions top_level_missing_skips_defaults_witness.
+Print Assumptions c13_nonvacuous.
